@@ -39,7 +39,7 @@ def main():
             with open(p, "w") as f:
                 f.write(src)
         mod = importlib.import_module(rec["module"])
-        fn = getattr(mod, rec["fn"])
+        fn = getattr(mod, rec["fn"]) if hasattr(mod, rec["fn"]) else mod.HARNESSES[rec["fn"]]
         args = {k: ast.literal_eval(v) for k, v in rec["args"].items()}
         from vlib.hx import AssumeFailed
         try:
